@@ -365,6 +365,13 @@ def reviewedLogClientIPAssigns : List String :=
 /-- assignments the extractor leaves out because they stand under `if logClientIP` -/
 def reviewedGuarded : List String := ["handleNewTCPConn: originalSrc"]
 
+/-- Reviewed: where an error is flattened into text (`fmt.Errorf("…%v", err)`) in the code whose errors
+reach `generalizeErr` or a logger of the connection path.  Configuration loading only: the error of
+reading / parsing the station's config file.  A flattening `fmt.Errorf` anywhere else in those directories
+fails `no_unreviewed_flattening` — flattened operation errors are what `generalizeErr` cannot clean
+(`opaque_address_passes_through`). -/
+def reviewedFlatten : List (String × String) := [("pkg/station/lib/config.go", "ParseConfig")]
+
 /-- Go types / JSON kinds of summary fields that cannot hold an address -/
 def plainTypes : List String :=
   ["int64", "int32", "uint", "uint32", "bool", "number", "object", "null",
